@@ -867,6 +867,187 @@ theorem Shear6_fromV3 {α : Type} [OfNat α 0] (a : V3 α) :
 theorem Shear6_ctor3 {α : Type} [OfNat α 0] (a : V3 α) :
     Gen.Shear6.ctor3 a = ⟨a.x, a.y, a.z, 0, 0, 0⟩ := rfl
 
+/-! ## Conversions between element types: the cast is visible
+
+`Gen.X.narrow*` are extracted with a second scalar type (`β`, the element type of the other aggregate); every
+conversion `T (v.x)` / `S (x)` / implicit conversion in the templates is recorded as an application of the parameter
+`cast : β → α`.  The theorems say that each converting constructor, `setValue`, `getValue` (and `setTheMatrix`)
+overload applies the scalar cast exactly once to every slot, slot `i` to slot `i` (matrices row-major), and that no
+slot of the overwritten object survives.  They hold for ANY function `cast`, in particular for the truncating /
+rounding / wrapping `static_cast`s double→float, float→half, double→int, int→unsigned char at which translator
+validation compares them with the real instantiations. -/
+
+theorem V2_narrowCtor {α β : Type} (cast : β → α) (a : V2 β) :
+    Gen.V2.narrowCtor cast a = V2.map cast a := rfl
+
+theorem V2_narrowSetValueV {α β : Type} (cast : β → α) (a : V2 α) (b : V2 β) :
+    Gen.V2.narrowSetValueV cast a b = V2.map cast b := rfl
+
+theorem V2_narrowGetValueV {α β : Type} (cast : β → α) (a : V2 β) (b : V2 α) :
+    Gen.V2.narrowGetValueV cast a b = V2.map cast a := rfl
+
+theorem V2_narrowSetValueS {α β : Type} (cast : β → α) (a : V2 α) (b : V2 β) :
+    Gen.V2.narrowSetValueS cast a b = V2.map cast b := rfl
+
+theorem V2_narrowGetValueS {α β : Type} (cast : β → α) (a : V2 β) (b : V2 α) :
+    Gen.V2.narrowGetValueS cast a b = V2.map cast a := rfl
+
+theorem V3_narrowCtor {α β : Type} (cast : β → α) (a : V3 β) :
+    Gen.V3.narrowCtor cast a = V3.map cast a := rfl
+
+theorem V3_narrowSetValueV {α β : Type} (cast : β → α) (a : V3 α) (b : V3 β) :
+    Gen.V3.narrowSetValueV cast a b = V3.map cast b := rfl
+
+theorem V3_narrowGetValueV {α β : Type} (cast : β → α) (a : V3 β) (b : V3 α) :
+    Gen.V3.narrowGetValueV cast a b = V3.map cast a := rfl
+
+theorem V3_narrowSetValueS {α β : Type} (cast : β → α) (a : V3 α) (b : V3 β) :
+    Gen.V3.narrowSetValueS cast a b = V3.map cast b := rfl
+
+theorem V3_narrowGetValueS {α β : Type} (cast : β → α) (a : V3 β) (b : V3 α) :
+    Gen.V3.narrowGetValueS cast a b = V3.map cast a := rfl
+
+theorem V4_narrowCtor {α β : Type} (cast : β → α) (a : V4 β) :
+    Gen.V4.narrowCtor cast a = V4.map cast a := rfl
+
+theorem V4_narrowSetValueV {α β : Type} (cast : β → α) (a : V4 α) (b : V4 β) :
+    Gen.V4.narrowSetValueV cast a b = V4.map cast b := rfl
+
+theorem V4_narrowGetValueV {α β : Type} (cast : β → α) (a : V4 β) (b : V4 α) :
+    Gen.V4.narrowGetValueV cast a b = V4.map cast a := rfl
+
+theorem V4_narrowSetValueS {α β : Type} (cast : β → α) (a : V4 α) (b : V4 β) :
+    Gen.V4.narrowSetValueS cast a b = V4.map cast b := rfl
+
+theorem V4_narrowGetValueS {α β : Type} (cast : β → α) (a : V4 β) (b : V4 α) :
+    Gen.V4.narrowGetValueS cast a b = V4.map cast a := rfl
+
+theorem C4_narrowCtor {α β : Type} (cast : β → α) (a : C4 β) :
+    Gen.C4.narrowCtor cast a = C4.map cast a := rfl
+
+theorem C4_narrowSetValueV {α β : Type} (cast : β → α) (a : C4 α) (b : C4 β) :
+    Gen.C4.narrowSetValueV cast a b = C4.map cast b := rfl
+
+theorem C4_narrowGetValueV {α β : Type} (cast : β → α) (a : C4 β) (b : C4 α) :
+    Gen.C4.narrowGetValueV cast a b = C4.map cast a := rfl
+
+theorem C4_narrowSetValueS {α β : Type} (cast : β → α) (a : C4 α) (b : C4 β) :
+    Gen.C4.narrowSetValueS cast a b = C4.map cast b := rfl
+
+theorem C4_narrowGetValueS {α β : Type} (cast : β → α) (a : C4 β) (b : C4 α) :
+    Gen.C4.narrowGetValueS cast a b = C4.map cast a := rfl
+
+theorem Shear6_narrowCtor {α β : Type} (cast : β → α) (a : Shear6 β) :
+    Gen.Shear6.narrowCtor cast a = Shear6.map cast a := rfl
+
+theorem Shear6_narrowSetValueV {α β : Type} (cast : β → α) (a : Shear6 α) (b : Shear6 β) :
+    Gen.Shear6.narrowSetValueV cast a b = Shear6.map cast b := rfl
+
+theorem Shear6_narrowGetValueV {α β : Type} (cast : β → α) (a : Shear6 β) (b : Shear6 α) :
+    Gen.Shear6.narrowGetValueV cast a b = Shear6.map cast a := rfl
+
+theorem Shear6_narrowSetValueS {α β : Type} (cast : β → α) (a : Shear6 α) (b : Shear6 β) :
+    Gen.Shear6.narrowSetValueS cast a b = Shear6.map cast b := rfl
+
+theorem Shear6_narrowGetValueS {α β : Type} (cast : β → α) (a : Shear6 β) (b : Shear6 α) :
+    Gen.Shear6.narrowGetValueS cast a b = Shear6.map cast a := rfl
+
+theorem M22_narrowCtor {α β : Type} (cast : β → α) (a : M22 β) :
+    Gen.M22.narrowCtor cast a = M22.map cast a := rfl
+
+theorem M22_narrowSetValueM {α β : Type} (cast : β → α) (a : M22 α) (b : M22 β) :
+    Gen.M22.narrowSetValueM cast a b = M22.map cast b := rfl
+
+theorem M22_narrowGetValueM {α β : Type} (cast : β → α) (a : M22 β) (b : M22 α) :
+    Gen.M22.narrowGetValueM cast a b = M22.map cast a := rfl
+
+theorem M22_narrowSetTheMatrix {α β : Type} (cast : β → α) (a : M22 α) (b : M22 β) :
+    Gen.M22.narrowSetTheMatrix cast a b = M22.map cast b := rfl
+
+theorem M33_narrowCtor {α β : Type} (cast : β → α) (a : M33 β) :
+    Gen.M33.narrowCtor cast a = M33.map cast a := rfl
+
+theorem M33_narrowSetValueM {α β : Type} (cast : β → α) (a : M33 α) (b : M33 β) :
+    Gen.M33.narrowSetValueM cast a b = M33.map cast b := rfl
+
+theorem M33_narrowGetValueM {α β : Type} (cast : β → α) (a : M33 β) (b : M33 α) :
+    Gen.M33.narrowGetValueM cast a b = M33.map cast a := rfl
+
+theorem M33_narrowSetTheMatrix {α β : Type} (cast : β → α) (a : M33 α) (b : M33 β) :
+    Gen.M33.narrowSetTheMatrix cast a b = M33.map cast b := rfl
+
+theorem M44_narrowCtor {α β : Type} (cast : β → α) (a : M44 β) :
+    Gen.M44.narrowCtor cast a = M44.map cast a := rfl
+
+theorem M44_narrowSetValueM {α β : Type} (cast : β → α) (a : M44 α) (b : M44 β) :
+    Gen.M44.narrowSetValueM cast a b = M44.map cast b := rfl
+
+theorem M44_narrowGetValueM {α β : Type} (cast : β → α) (a : M44 β) (b : M44 α) :
+    Gen.M44.narrowGetValueM cast a b = M44.map cast a := rfl
+
+theorem M44_narrowSetTheMatrix {α β : Type} (cast : β → α) (a : M44 α) (b : M44 β) :
+    Gen.M44.narrowSetTheMatrix cast a b = M44.map cast b := rfl
+
+theorem Quat_narrowCtor {α β : Type} (cast : β → α) (a : Quat β) :
+    Gen.Quat.narrowCtor cast a = Quat.map cast a := rfl
+
+theorem V4_narrowFromV3 {α β : Type} [OfNat α 1] (cast : β → α) (a : V3 β) :
+    Gen.V4.narrowFromV3 cast a = ⟨cast a.x, cast a.y, cast a.z, 1⟩ := rfl
+
+theorem C3_narrowFromV3 {α β : Type} (cast : β → α) (a : V3 β) :
+    Gen.C3.narrowFromV3 cast a = V3.map cast a := rfl
+
+theorem Shear6_narrowFromV3 {α β : Type} [OfNat α 0] (cast : β → α) (a : V3 β) (t : Shear6 α) :
+    Gen.Shear6.narrowFromV3 cast a t = (⟨cast a.x, cast a.y, cast a.z, 0, 0, 0⟩, ⟨cast a.x, cast a.y, cast a.z, 0, 0, 0⟩) := rfl
+
+/-- the statements are about the cast, not about the identity: with a cast that is not injective (truncation of a
+rational to an integer part, here `Int.toNat`) distinct sources give equal results, slot by slot -/
+example : Gen.V3.narrowCtor Int.toNat (⟨-1, 2, -3⟩ : V3 Int) = ⟨0, 2, 0⟩ := rfl
+
+/-! ## Raw C arrays (`has_subscript<Base[N], Base, N>`, `has_double_subscript<Base[R][C], Base, R, C>`) -/
+
+theorem V2_interopArr {α : Type} (a : V2 α) :
+    Gen.V2.interopArr a = (a, a) := rfl
+
+theorem V3_interopArr {α : Type} (a : V3 α) :
+    Gen.V3.interopArr a = (a, a) := rfl
+
+theorem V4_interopArr {α : Type} (a : V4 α) :
+    Gen.V4.interopArr a = (a, a) := rfl
+
+theorem M22_interopArr2 {α : Type} (a : M22 α) :
+    Gen.M22.interopArr2 a = a := rfl
+
+theorem M33_interopArr2 {α : Type} (a : M33 α) :
+    Gen.M33.interopArr2 a = a := rfl
+
+theorem M44_interopArr2 {α : Type} (a : M44 α) :
+    Gen.M44.interopArr2 a = a := rfl
+
+/-! ## Scalar on the left for Quat and Matrix
+
+The code computes `x * s` in every slot (`*_smul` above state exactly that); for a commutative scalar
+multiplication — all seven element types — this is the scalar on the left applied to each component, the
+form the Vec / Color / Shear spellings compute directly. -/
+
+theorem Quat_smul_left {α : Type} [Mul α] (hc : ∀ x y : α, x * y = y * x) (s : α) (a : Quat α) :
+    Gen.Quat.smul s a = Quat.map (s * ·) a := by
+  rw [Quat_smul]; simp only [Quat.map, V3.map, hc _ s]
+
+theorem M22_smul_left {α : Type} [Mul α] (hc : ∀ x y : α, x * y = y * x) (s : α) (a : M22 α) :
+    Gen.M22.smul s a = M22.map (s * ·) a := by
+  rw [M22_smul]; simp only [M22.map, hc _ s]
+
+theorem M33_smul_left {α : Type} [Mul α] (hc : ∀ x y : α, x * y = y * x) (s : α) (a : M33 α) :
+    Gen.M33.smul s a = M33.map (s * ·) a := by
+  rw [M33_smul]; simp only [M33.map, hc _ s]
+
+theorem M44_smul_left {α : Type} [Mul α] (hc : ∀ x y : α, x * y = y * x) (s : α) (a : M44 α) :
+    Gen.M44.smul s a = M44.map (s * ·) a := by
+  rw [M44_smul]; simp only [M44.map, hc _ s]
+
+example : ∀ x y : Int, x * y = y * x := Int.mul_comm
+
 /-! Bridges to the usual mathematical notions over a linearly ordered ring -/
 
 theorem sabsdiff_eq_abs {α : Type} [Ring α] [LinearOrder α] [IsOrderedRing α] (x y : α) :
